@@ -184,12 +184,21 @@ func runSolver(ctx context.Context, sp solverSpec, file string, timeoutS int) so
 
 // portfolio: quick first attempt with z3 4.8, then race the three solvers.
 func portfolio(file string, timeoutS int, all bool) solveOut {
+	return portfolioOpt(file, timeoutS, all, true)
+}
+
+// race: the three solvers at once, without the sequential first try
+func race(file string, timeoutS int) solveOut { return portfolioOpt(file, timeoutS, false, false) }
+
+func portfolioOpt(file string, timeoutS int, all bool, seqFirst bool) solveOut {
 	ctx := context.Background()
 	t0 := time.Now()
-	first := runSolver(ctx, solvers[0], file, min(2, timeoutS))
-	if first.status == "sat" || first.status == "unsat" {
-		if !all {
-			return first
+	if seqFirst {
+		first := runSolver(ctx, solvers[0], file, min(2, timeoutS))
+		if first.status == "sat" || first.status == "unsat" {
+			if !all {
+				return first
+			}
 		}
 	}
 	rctx, cancel := context.WithCancel(ctx)
@@ -292,6 +301,19 @@ func dischargeOne(o *Obl, dir string, timeoutS int, all bool) {
 	} else {
 		o.Time += r0.dur
 	}
+	// attempt 3: recursive spec functions left uninterpreted, with their defining equation
+	// instantiated at the applications that occur in the obligation (two rounds). Instances of a
+	// definition are true, so a proof from them is a proof.
+	if uo := unfoldOnce(o, 2); uo != nil {
+		ufn := strings.TrimSuffix(fn, ".smt2") + ".unfold.smt2"
+		os.WriteFile(ufn, []byte(uo.smt(nil)), 0o644)
+		r := race(ufn, min(8, timeoutS))
+		if r.status == "unsat" {
+			o.Status, o.Solver, o.Time, o.Model = r.status, r.solver+" (recursive definitions unfolded at their applications)", r.dur, r.out
+			return
+		}
+		o.Time += r.dur
+	}
 	// attempt 1: only the small facts of the path condition (bounds, equalities, short
 	// implications); giant assumptions such as a callee's postcondition over a 243-ary digest term
 	// are left out. Dropping assumptions can only lose proofs.
@@ -300,7 +322,7 @@ func dischargeOne(o *Obl, dir string, timeoutS int, all bool) {
 		so.PC = small
 		sfn := strings.TrimSuffix(fn, ".smt2") + ".small.smt2"
 		os.WriteFile(sfn, []byte(so.smt(nil)), 0o644)
-		r := portfolio(sfn, min(3, timeoutS), false)
+		r := race(sfn, min(3, timeoutS))
 		if r.status == "unsat" {
 			o.Status, o.Solver, o.Time, o.Model = r.status, r.solver+" (small-facts VC)", r.dur, r.out
 			return
@@ -313,7 +335,7 @@ func dischargeOne(o *Obl, dir string, timeoutS int, all bool) {
 	if ao := abstractBigApps(o); ao != nil {
 		afn := strings.TrimSuffix(fn, ".smt2") + ".abs.smt2"
 		os.WriteFile(afn, []byte(ao.smt(nil)), 0o644)
-		r := portfolio(afn, min(5, timeoutS), false)
+		r := race(afn, min(5, timeoutS))
 		if r.status == "unsat" {
 			o.Status, o.Solver, o.Time, o.Model = r.status, r.solver+" (large applications generalised)", r.dur, r.out
 			return
@@ -382,7 +404,7 @@ func dischargeOne(o *Obl, dir string, timeoutS int, all bool) {
 		}
 		sfn := strings.TrimSuffix(fn, ".smt2") + ".sliced.smt2"
 		os.WriteFile(sfn, []byte(so.smt(nil)), 0o644)
-		r := portfolio(sfn, min(5, timeoutS), false)
+		r := race(sfn, min(5, timeoutS))
 		if r.status == "unsat" {
 			o.Status, o.Solver, o.Time, o.Model = r.status, r.solver+" (sliced VC)", r.dur, r.out
 			return
@@ -464,5 +486,90 @@ func abstractBigApps(o *Obl) *Obl {
 	if len(rep) == 0 {
 		return nil
 	}
+	return &c
+}
+
+func unfoldOnce(o *Obl, rounds int) *Obl {
+	if len(o.RecDefs) == 0 {
+		return nil
+	}
+	c := *o
+	c.PC = append([]*Term(nil), o.PC...)
+	done := map[*Term]bool{}
+	frontier := append([]*Term{o.Goal}, o.PC...)
+	any := false
+	for r := 0; r < rounds; r++ {
+		var apps []*Term
+		seen := map[*Term]bool{}
+		var walk func(t *Term)
+		walk = func(t *Term) {
+			if seen[t] {
+				return
+			}
+			seen[t] = true
+			if t.Op == "forall" || t.Op == "exists" {
+				return // applications under a binder are not ground
+			}
+			if t.Op == "app" {
+				if _, ok := o.RecDefs[t.Name]; ok && !done[t] {
+					done[t] = true
+					apps = append(apps, t)
+				}
+			}
+			for _, a := range t.Args {
+				walk(a)
+			}
+		}
+		for _, t := range frontier {
+			walk(t)
+		}
+		frontier = nil
+		for _, a := range apps {
+			d := o.RecDefs[a.Name]
+			if len(d.params) != len(a.Args) {
+				continue
+			}
+			m := map[string]*Term{}
+			for i, p := range d.params {
+				m[p.Name] = a.Args[i]
+			}
+			inst := Eq(a, subst(d.body, m))
+			c.PC = append(c.PC, inst)
+			frontier = append(frontier, inst)
+			any = true
+		}
+	}
+	if !any {
+		return nil
+	}
+	// keep only the non-recursive definitions
+	var kd, kn []string
+	var kb []*Term
+	lines := strings.Split(strings.TrimSpace(o.Defs), "\n")
+	for i, dn := range o.DefNames {
+		if _, rec := o.RecDefs[dn]; rec {
+			continue
+		}
+		for _, l := range lines {
+			if strings.HasPrefix(l, "(define-fun "+sanitize(dn)+" ") {
+				kd = append(kd, l)
+			}
+		}
+		kn = append(kn, dn)
+		_ = i
+	}
+	for _, dn := range kn {
+		_ = dn
+	}
+	// bodies of the kept definitions (for symbol collection)
+	for i, dn := range o.DefNames {
+		if _, rec := o.RecDefs[dn]; !rec && i < len(o.DefBodies) {
+			kb = append(kb, o.DefBodies[i])
+		}
+	}
+	c.Defs = strings.Join(kd, "\n") + "\n"
+	c.DefNames = kn
+	c.DefBodies = kb
+	c.RecDefs = nil
 	return &c
 }
